@@ -208,7 +208,7 @@ PROPS['C10'] = {
 
 PROPS['C06'] = {
     'title': 'A replica fed the change stream converges to the primary',
-    'modules': ['ColumnVerif.Props.C06', 'ColumnVerif.Props.C06skel'],
+    'modules': ['ColumnVerif.Props.C06', 'ColumnVerif.Props.C06store', 'ColumnVerif.Props.C06skel'],
     'runs': [{'mode': 'store'}, {'mode': 'sched'}],
     'skeleton': True,
     'trusted_base': CONC_TB + STORE_TB[3:],
@@ -216,9 +216,9 @@ PROPS['C06'] = {
         "strings/records under the D12 guard (no op after a resizing merge on the same offset in one section); counterexample theorem and KNOWN_FINDINGS entry",
         "channel logger with multi-chunk transactions: finding D16 (the cloned buffers of all chunks are re-applied) — reached by the scheduler, listed in KNOWN_FINDINGS; the serialized-log path is unaffected",
         "a Delete does not carry the stale raw bytes of a slot: replica and primary agree on everything a reader can see (VisEq), not on dead bytes",
-        "enum and key columns are exercised by the correspondence only",
+        "store level (Props/C06store): replica_converges_store / replica_converges_fresh — for any sequence of well-formed transactions committed on a primary with the log-file logger and a replica with the same column names (kinds matching, merge functions, hash, capacity free) replaying the whole emitted stream through the real Store.replay, every numeric column reads the same on both sides and the fill lists agree; inserts (reservation before the commit) included; strings/records under NoAppend/StrGuard, keys with equal lookup tables (replica_converges_store_key); channel logger: the same for single-chunk transactions, and the kernel-checked D16 history channel_multichunk_counterexample (T1 chunk 0, T3, T1 chunk 1: the channel-fed replica reads 1 where the primary and the log-fed replica read 3); enum columns by the correspondence only (the replica would need the primary's hash)",
     ],
-    'level_text': "Lean theorems. Sequential core (executable column model): the section a commit emits contains no Merge (every merge rewritten into a Put of the stored result), so replaying it never consults the replica's merge function or previous data; a replica in sync stays in sync slot by slot through every pass, and over whole histories (numeric unconditionally, strings under the D12 guard). Schedule part (small-step machine, any number of writers/chunks/steps, arbitrary merge): the value a replica holds after replaying the stream in arrival order is the primary's value after the prefix of commits already handed to the logger, and equals the primary's value whenever the primary is quiescent; streams of different chunks commute. Tied to the code by the regenerated skeleton (emission inside the latch, Clone carries the id), differential histories with a replica through both loggers, and controlled schedules of racing writers with a replica-dump oracle.",
+    'level_text': "Lean theorems. Sequential core (executable column model): the section a commit emits contains no Merge (every merge rewritten into a Put of the stored result), so replaying it never consults the replica's merge function or previous data; a replica in sync stays in sync slot by slot through every pass, and over whole histories (numeric unconditionally, strings under the D12 guard); lifted through the real Store.commit / emission / Store.replay: what a commit emits is the rewritten ops of each dirty chunk in ascending order (emitted_stream_num), replaying it keeps the replica equal, for whole histories (replica_converges_store). Schedule part (small-step machine, any number of writers/chunks/steps, arbitrary merge): the value a replica holds after replaying the stream in arrival order is the primary's value after the prefix of commits already handed to the logger, and equals the primary's value whenever the primary is quiescent; streams of different chunks commute. Tied to the code by the regenerated skeleton (emission inside the latch, Clone carries the id), differential histories with a replica through both loggers, and controlled schedules of racing writers with a replica-dump oracle.",
     'technique': 'Lean 4 proof (absolute-commit replay lemma; machine invariant over all schedules) + regenerated protocol skeleton + correspondence + controlled scheduling',
     'design_ref': '§6 C06',
 }
